@@ -238,7 +238,26 @@ def run(ctx: Ctx) -> None:
                 ctx.violation("deflate:compress-not-raw content differs", {"length": n})
         except Exception as e:  # noqa
             ctx.violation(f"deflate:compress-not-raw {type(e).__name__}", {"length": n, "err": str(e)[:100]})
-    ctx.traces = len(finals)
+    # the DEF model is one object shared by every call: two decompress calls interleaved at every source line of either
+    # (DeflateShared.tla; deterministic scheduler of C20) must each decide as in isolation
+    ctx.tlc("DeflateShared", timeout=300)
+    ctx.sensitivity("DeflateShared", "DeflateShared_dev_InflaterOnModel")
+    from . import c20
+    pairs = [(kind, a, b, 1, ctx.seed, 30 if thorough else 8) for kind in (("oct256", "EC:P-256", "RSA2048") if thorough else ("oct256",))
+             for a, b in (("decrypt_zip", "decrypt_zip_over"), ("decrypt_zip_over", "decrypt_zip_over"), ("decrypt_zip", "decrypt_zip"),
+                          ("decrypt_zip_over", "decrypt"), ("decrypt_zip", "encrypt"))]
+    with mp.get_context("fork").Pool(NCPU, initializer=init) as pool:
+        sres = pool.map(c20.explore, pairs, chunksize=1)
+    nsched = 0
+    for (kind, a, b, na, nb), n, found in sres:
+        nsched += n
+        ctx.nontrivial.add(f"sched:{kind}:{a}|{b}")
+        for p, pre, first in found:
+            ctx.violation(f"deflate:concurrent {a}||{b} -> {p.split(':', 1)[-1].strip().split(' (')[0][:70]}",
+                          {"kind": kind, "ops": [a, b], "preempts": pre, "first": first, "problem": p})
+    ctx.evaluations += nsched
+    ctx.notes["concurrent_schedules"] = nsched
+    ctx.traces = len(finals) + nsched
     ctx.exhaustive = False
     ctx.notes.update(abstract_final_states=len(finals), abstract_classes=len(lengths), concrete_cases=len(cases), within_limit_cases=nwithin,
                      bombs=[{"expanded": b[0][0], "compressed": b[0][1], "peak_traced": b[0][4]} for b in bres])
@@ -254,7 +273,13 @@ def run(ctx: Ctx) -> None:
 def replay(ctx: Ctx, rec: dict) -> None:
     from .common import _pool_init
     _pool_init(); J.register_drafts({"chacha"})
-    if "class" in rec:
+    if "ops" in rec:
+        from . import c20
+        problems, sch = c20.run_schedule(rec["kind"], rec["ops"], [tuple(p) for p in rec["preempts"]], rec["first"])
+        print("ops", rec["ops"], "preempts", rec["preempts"], "-> problems now:", problems)
+        if problems:
+            ctx.violation(rec["signature"], {"problems": problems})
+    elif "class" in rec:
         a = (rec["class"], rec["length"], rec["enc"], rec["ser"], rec["framing"], rec.get("seed", 0))
         print(case(a))
         if case(a)[1]:
